@@ -238,7 +238,7 @@ def check_guard_wrapping(repo, chk):
         chk.ob("R12.2", f"interpret.BaseAccumulator.__init__:wrap:{slot}", ok, where,
                f"user {slot} handler wrapped by the capture check: {msg}")
     # __check: returns wrapper iff fn and check and selector.hasval; wrapper calls check_captures and yields ABSENT otherwise
-    inner = [n for n in ck.node.body if isinstance(n, ast.FunctionDef)]
+    inner = [f2.node for f2 in repo.functions.values() if f2.parent is not None and f2.parent.qual == ck.qual and isinstance(f2.node, ast.FunctionDef)]
     ok = False
     detail = "shape not recognised"
     fnparam = ck.node.args.args[1].arg
@@ -417,9 +417,9 @@ def run(repo, chk):
         params = {a.arg for a in fi.node.args.args}
         for n in walk_local(fi.node):
             k = None
-            if isinstance(n, ast.Subscript) and norm(n.value) == "self.captures":
+            if isinstance(n, ast.Subscript) and expand(n.value, fi.node) == "self.captures":
                 k = n.slice
-            elif isinstance(n, ast.Compare) and len(n.ops) == 1 and isinstance(n.ops[0], (ast.In, ast.NotIn)) and norm(n.comparators[0]) == "self.captures":
+            elif isinstance(n, ast.Compare) and len(n.ops) == 1 and isinstance(n.ops[0], (ast.In, ast.NotIn)) and expand(n.comparators[0], fi.node) == "self.captures":
                 k = n.left
             if k is None:
                 continue
